@@ -484,6 +484,14 @@ def run_violation(r, ch, client, name):
             ack_first = wire.settings(ack=True)
             c.frame_limit = 32768
             r.labels.add('limit-raised-by-ack-in-the-same-call')
+            if ch.chance(80):
+                # ... and taken back before the first change was acknowledged: two frames, two acknowledgements,
+                # and the limit in force is the old one again
+                o = ep.call('update_settings', {wire.S_MAX_FRAME_SIZE: 16384})
+                if o.ok:
+                    ack_first += wire.settings(ack=True)
+                    c.frame_limit = 16384
+                    r.labels.add('limit-raised-and-taken-back')
     data = fn(c)
     if data is None:
         return False
